@@ -329,6 +329,8 @@ def check_fn(name, s, tok, out):
         if not nearest or not domain_ok(s) or abs(xv) > 128:
             return None
         t = {"sin": mp.sin, "cos": mp.cos, "tan": mp.tan}[name](X)
+        if name == "tan" and abs(t) > 64:
+            return None  # no requirement on tan beyond |tan x| <= 64
         if v["cat"] not in ("N", "Z"):
             return "result is not finite"
         r = to_mpf(val_of(v))
